@@ -158,6 +158,10 @@ class World:
             w.log.append(('disp', k, w.rel(), w.iter))
         self.sink.addHandler(handler('ttick')(on_tick))
         def on_act(self, event, acts):
+            # environment choice: the handlers dispatched before this one were busy - the clock has moved on since the timers
+            # looked at it in their generate_events handlers
+            if any(what in ('reset', 'unreg') for _at, what, _k in acts) and w.env.choose('busy-handlers', 2):
+                w.clock.advance(0.125)
             for at, what, k in acts:
                 w.do(what, k, w.rel())
         self.sink.addHandler(handler('act')(on_act))
